@@ -62,7 +62,7 @@ CATALOGUE = [
 def main():
     R = vf.Report(PID)
     proved = R.proof_step()
-    n = 700 if R.thorough else 60
+    n = 6000 if R.thorough else 60
     cases = list(CATALOGUE) + [gen_case(R.rng) for _ in range(n)]
     nw = 8
     chunks = [cases[i::nw] for i in range(nw)]
